@@ -443,6 +443,24 @@ func Run[P any](t *testing.T, s *Suite, kind string, base int, gen func(*rapid.T
 	})
 }
 
+// Fuzz registers the same generator/executor pair as a native fuzz target (coverage-guided
+// mutation of the byte string that feeds the rapid generator). Used by the thorough tier only.
+func Fuzz[P any](f *testing.F, s *Suite, kind string, gen func(*rapid.T) P, exec func(P) (Outcome, error)) {
+	s.mu.Lock()
+	if s.kinds[kind] == nil {
+		s.kinds[kind] = &kindStats{}
+	}
+	s.mu.Unlock()
+	f.Fuzz(rapid.MakeFuzz(func(rt *rapid.T) {
+		plan := gen(rt)
+		if v := Exec(s, kind, plan, exec); v != nil {
+			p := s.writeReplay(fmt.Sprintf("fail-%s-fuzz.json", kind), kind, plan, v)
+			fmt.Printf("VERIF-FAIL property=%s kind=%s replay=%s\n", s.Prop, kind, p)
+			rt.Fatalf("%s/%s: %v", s.Prop, kind, v)
+		}
+	}))
+}
+
 func partTag() string {
 	if p := os.Getenv("VERIF_PART"); p != "" && p != "j0-s0" {
 		return "-" + p
@@ -580,8 +598,8 @@ func (s *Suite) Flush() {
 	dir := filepath.Join(outDir(), "parts")
 	os.MkdirAll(dir, 0o755)
 	tag := os.Getenv("VERIF_PART")
-	if tag == "" {
-		tag = strconv.Itoa(os.Getpid())
+	if tag == "" || os.Getenv("VERIF_FUZZ") != "" {
+		tag += "-" + strconv.Itoa(os.Getpid())
 	}
 	base := filepath.Join(dir, s.Prop+"-"+tag)
 	writeHashes(base+".hashes", s.nontriv)
